@@ -42,9 +42,8 @@ def unescapeTriple : Nat → Str → Str
   | 0, _ => []
   | _ + 1, [] => []
   | f + 1, c :: r =>
-    match c, r with
-    | 92, 34 :: 34 :: 34 :: r' => 34 :: 34 :: 34 :: unescapeTriple f r'
-    | _, _ => c :: unescapeTriple f r
+    if c == 92 && r.take 3 == [34, 34, 34] then 34 :: 34 :: 34 :: unescapeTriple f (r.drop 3)
+    else c :: unescapeTriple f r
 
 /-- lines of a block string: split at LineTerminator (LF, CR LF, lone CR).  `prevCr`: the
 previous character was a CR that already ended a line (so a LF directly after it ends nothing). -/
@@ -59,15 +58,18 @@ def splitLinesSpecAux : Str → Str → Bool → List Str
 
 def splitLinesSpec (s : Str) : List Str := splitLinesSpecAux s [] false
 
+/-- `cur` is the reversed piece: drop the `\r` that directly precedes the `\n` -/
+def stripTrailingCr (cur : Str) : Str :=
+  match cur with
+  | 13 :: cur' => cur'.reverse
+  | _ => cur.reverse
+
 /-- Rust's `str::lines`: pieces end at `\n`; a piece that ended with `\n` loses one trailing
 `\r`; a last piece without `\n` is kept as it is; no empty last piece. -/
 def rustLines : Str → Str → List Str
   | [], cur => if cur.isEmpty then [] else [cur.reverse]
   | c :: r, cur =>
-    if c == 10 then
-      (match cur with
-        | 13 :: cur' => cur'.reverse
-        | _ => cur.reverse) :: rustLines r []
+    if c == 10 then stripTrailingCr cur :: rustLines r []
     else rustLines r (c :: cur)
 
 def leadingWs (l : Str) : Nat := (l.takeWhile isWhiteSpace).length
